@@ -18,6 +18,20 @@ mod with;
 impl ByteCompiler<'_> {
     /// Compiles a [`Statement`] `boa_ast` node.
     pub fn compile_stmt(&mut self, node: &Statement, use_expr: bool, root_statement: bool) {
+        if matches!(
+            node,
+            Statement::If(_)
+                | Statement::ForLoop(_)
+                | Statement::ForInLoop(_)
+                | Statement::ForOfLoop(_)
+                | Statement::WhileLoop(_)
+                | Statement::DoWhileLoop(_)
+                | Statement::Switch(_)
+                | Statement::Try(_)
+                | Statement::With(_)
+        ) {
+            self.reset_completion_value();
+        }
         match node {
             Statement::Var(var) => self.compile_var_decl(var),
             Statement::If(node) => self.compile_if(node, use_expr),
@@ -100,6 +114,19 @@ impl ByteCompiler<'_> {
             }
             Statement::With(with) => self.compile_with(with, use_expr),
             Statement::Empty | Statement::Debugger => {}
+        }
+    }
+
+    /// Emits the `UpdateEmpty(stmtResult, undefined)` of the statements whose completion value is
+    /// `undefined` when their body produces none (`if`, the loops, `switch`, `try`, `with`): the
+    /// value left by an earlier statement must not survive them.
+    ///
+    /// Only inside a loop, `switch` or labelled statement can an earlier statement of the list have
+    /// stored a value (every nested statement list keeps its last value there, for `break`).
+    pub(crate) fn reset_completion_value(&mut self) {
+        if self.jump_control_info_has_use_expr() {
+            self.bytecode
+                .emit_set_accumulator(CallFrame::undefined_register().variable());
         }
     }
 
